@@ -11,6 +11,7 @@ ID = "C14"
 SUB = "c14"
 LEVEL = "proof"
 RESILIENT = True
+IMPL_CHUNK = 3000
 MODELLED = ["time", "aead", "vcommit", "write", "account", "file", "record", "cproof", "cstate", "comparison", "tagset", "evfile"]
 RULE = ("structure-aware Rust generators (every variant, empty/boundary sizes, non-ASCII strings, boundary "
         "timestamps) produce values of each type; a case is the encoding of one value; non-trivial = modelled type "
